@@ -180,3 +180,55 @@ Proof.
   unfold ctl_recv, pair_recv, axsend_recv, axrecv_recv.
   rewrite !registry_recv_nonreply by exact H. rewrite Hp. reflexivity.
 Qed.
+
+(* ---------------------------------------------------------------- the callback may send again (re-entrancy)
+   processIqRegistry forgets the pending request FIRST and runs its callback afterwards.  The callback hands the answer
+   to the application, which may - from inside that very call - send the same request entity again (same id): the
+   re-sent request is then registered like any other, and its answer is delivered.  A registry that runs the callback
+   first and forgets the id afterwards (seed C06-13: the removal moved into a `finally`) un-registers the retry. *)
+Definition process_then_callback (st : registry) (l : lid) (i : string) (cb : registry -> registry) : registry :=
+  cb (reg_remove st l i).
+Definition callback_then_remove (st : registry) (l : lid) (i : string) (cb : registry -> registry) : registry :=
+  reg_remove (cb st) l i.
+Definition resend (l : lid) (i : string) (ok err : option string) : registry -> registry :=
+  fun st => (l, i, ok, err) :: st.
+
+Lemma lid_eqb_refl' : forall l, lid_eqb l l = true.
+Proof. destruct l; reflexivity. Qed.
+
+Theorem retry_in_handler_registered_thm : forall st l i ok err x fr to p ch,
+  let st' := process_then_callback st l i (resend l i ok err) in
+  reg_find st' l (Some i) = Some (l, i, ok, err) /\
+  registry_recv st' l (reply_feat x (Some "result") i fr to p ch) =
+    Some (match ok with Some c => [Up c] | None => [] end) /\
+  registry_recv st' l (reply_feat x (Some "error") i fr to p ch) =
+    Some (match err with Some c => [Up c] | None => [] end).
+Proof.
+  intros st l i ok err x fr to p ch st'.
+  assert (H : reg_find st' l (Some i) = Some (l, i, ok, err)).
+  { unfold st', process_then_callback, resend, reg_find. cbn [find].
+    rewrite lid_eqb_refl', String.eqb_refl. reflexivity. }
+  split; [exact H|].
+  unfold registry_recv, reply_feat. cbn [f_tag f_id f_type].
+  change (String.eqb "iq" "iq") with true. cbv iota.
+  rewrite H. split; reflexivity.
+Qed.
+
+Lemma find_none_all {A} (f : A -> bool) : forall l, (forall e, In e l -> f e = false) -> find f l = None.
+Proof.
+  induction l as [|a l IH]; intros H; [reflexivity|]. cbn [find].
+  rewrite (H a (or_introl eq_refl)). apply IH. intros e He. apply H. right. exact He.
+Qed.
+
+Theorem callback_then_remove_refuted_thm : forall st l i ok err x t fr to p ch,
+  registry_recv (callback_then_remove st l i (resend l i ok err)) l (reply_feat x t i fr to p ch) = None.
+Proof.
+  intros st l i ok err x t fr to p ch.
+  unfold registry_recv, reply_feat. cbn [f_tag f_id f_type].
+  change (String.eqb "iq" "iq") with true. cbv iota.
+  assert (H : reg_find (callback_then_remove st l i (resend l i ok err)) l (Some i) = None).
+  { unfold callback_then_remove, reg_remove, reg_find.
+    apply find_none_all. intros e He. apply filter_In in He. destruct He as [_ He].
+    destruct e as [[[l' i'] ok'] err']. apply Bool.negb_true_iff in He. exact He. }
+  rewrite H. reflexivity.
+Qed.
